@@ -1,5 +1,5 @@
 (* C12 - Wheatley moves onto a steady human rhythm.  (Exact-rational instance of the model.) *)
-From Wh Require Import Prelude Permute PN Gens Rhythm RegressP DetP TimingP.
+From Wh Require Import Prelude Permute PN Gens Rhythm RegressP DetP LineP TimingP.
 From Coq Require Import NArith ZArith QArith.
 Local Open Scope Q_scope.
 
@@ -59,3 +59,37 @@ Proof.
   - discriminate.
   - constructor; [cbn; reflexivity|constructor; [cbn; reflexivity|constructor]].
 Qed.
+
+
+(* The same, on the model's own `_add_data_point` (exact instance): whenever it runs the regression on data that
+   lie on the humans' line (a, b), Wheatley's start and interval move towards (a, b) by EXACTLY the factor
+   `inertia` - the one in force for that row - and with inertia 0 they ARE (a, b) from that regression onwards.
+   No hypothesis about the matrix: two different blows among the kept data suffice. *)
+Theorem C12_one_regression_contracts : forall r row place t w r' a b x1 y1 w1 x2 y2 w2 s,
+  r_round r = false ->
+  Qeqb (if (0 <? row)%nat then r_pref_inertia r else r_init_inertia r) 1 = false ->
+  r_start r = Some s ->
+  add_data_point r row place t w = Ok r' ->
+  (r_min r <= length (r_data r'))%nat ->
+  Forall (on_line a b) (r_data r') ->
+  In (x1, y1, w1) (r_data r') -> In (x2, y2, w2) (r_data r') -> ~ x1 == x2 ->
+  let i := if (0 <? row)%nat then r_pref_inertia r else r_init_inertia r in
+  exists s', r_start r' = Some s' /\ s' - a == i * (s - a) /\ r_interval r' - b == i * (r_interval r - b).
+Proof. exact one_regression_contracts. Qed.
+Theorem C12_inertia_zero_lands_on_the_line : forall r row place t w r' a b x1 y1 w1 x2 y2 w2 s,
+  r_round r = false ->
+  (if (0 <? row)%nat then r_pref_inertia r else r_init_inertia r) == 0 ->
+  r_start r = Some s ->
+  add_data_point r row place t w = Ok r' ->
+  (r_min r <= length (r_data r'))%nat ->
+  Forall (on_line a b) (r_data r') ->
+  In (x1, y1, w1) (r_data r') -> In (x2, y2, w2) (r_data r') -> ~ x1 == x2 ->
+  exists s', r_start r' = Some s' /\ s' == a /\ r_interval r' == b.
+Proof. exact inertia_zero_lands_on_the_line. Qed.
+Example C12_one_regression_nonvacuous :
+  match add_data_point demo_regr 1 1 (121 # 10) 1 with
+  | Ok r' => (r_min demo_regr <= length (r_data r'))%nat /\ Forall (on_line 10 (3 # 10)) (r_data r')
+             /\ r_start r' = Some 10 /\ r_interval r' = 3 # 10
+  | Err _ => False
+  end.
+Proof. exact one_regression_nonvacuous. Qed.
